@@ -380,10 +380,12 @@ func pcValidate(lines []*pcLine, timeout time.Duration) (pcTraceResult, error) {
 	if !out.Accepted {
 		out.FailLine = r.HW + 1
 		for _, ln := range strings.Split(r.Output, "\n") {
-			if strings.Contains(ln, "LINE_MISMATCH") && strings.Contains(ln, fmt.Sprintf("\"LINE_MISMATCH\", %d,", out.FailLine)) {
-				out.FailText = strings.TrimSpace(ln)
-				break
+			if strings.Contains(ln, fmt.Sprintf("\"LINE_MISMATCH\", %d,", out.FailLine)) || strings.Contains(ln, fmt.Sprintf("\"LINE_MISMATCH_VEC\", %d,", out.FailLine)) {
+				out.FailText += strings.TrimSpace(ln) + " "
 			}
+		}
+		if j := out.FailLine - 1; j >= 0 && j < len(lines) {
+			out.FailText += fmt.Sprintf("[%s %s: model outcome, real outcome; guards/equations valued differently]", lines[j].T.Sys, lines[j].Kind)
 		}
 	}
 	return out, nil
